@@ -93,8 +93,7 @@ abbrev Patch := List (Nat × List Cell)
     `aff` = per fragment the offsets this transaction deletes (`affected_rows`), `removed` = fragments it deletes
     wholly (`deleted_fragment_ids` / `removed_fragment_ids`, a subset of the ids of `aff`), `patches` = per fragment the
     columns a RewriteColumns update replaces (`updated_fragments` with a new data file), `news` = `new_fragments`,
-    `fm` = `fields_modified`, `hit` = the rows the update read and changed (`affected_rows`: equal to `aff` for
-    RewriteRows, the matched rows for RewriteColumns), `colsMode` = `update_mode` is RewriteColumns. -/
+    `fm` = `fields_modified`, `hit` = `affected_rows` (equal to `aff` for RewriteRows; none for RewriteColumns), `colsMode` = `update_mode` is RewriteColumns. -/
 inductive Txn where
   | append (news : List (List Row))
   | delete (aff : List (Nat × List Nat)) (removed : List Nat)
@@ -165,6 +164,9 @@ def gone (m : Manifest) (aff : List (Nat × List Nat)) : List Nat :=
 def updatedIds (aff : List (Nat × List Nat)) (removed : List Nat) (patches : List (Nat × Patch)) : List Nat :=
   (aff.map (·.1)).filter (fun f => !removed.contains f) ++ patches.map (·.1)
 
+/-- the fields of the data file of a fragment that stores c1 -/
+def fileFields (g : Frag) : List Nat := if g.split then [0, 1] else [0, 1, 2]
+
 /-- Transaction::build_manifest on the latest manifest (with the deletion-vector rebase folded in) -/
 def build (m : Manifest) : Txn → Except Err Manifest
   | .append news =>
@@ -188,7 +190,9 @@ def build (m : Manifest) : Txn → Except Err Manifest
     match m.frags f with
     | none => .error .invalid
     | some g =>
-      .ok { m with frags := fun f' => if f' = f then some { g with rows := applyPatch g.rows p } else m.frags f' }
+      -- "Expected to modify the fragment but no changes were made": no data file of the fragment has these fields
+      if patchFields p != fileFields g then .error .invalid
+      else .ok { m with frags := fun f' => if f' = f then some { g with rows := applyPatch g.rows p } else m.frags f' }
   | .reserve n => .ok { m with nextFrag := m.nextFrag + n }
 
 /-- TransactionRebase::try_new, `modified_fragment_ids` -/
@@ -205,6 +209,12 @@ def Txn.filesChanged : Txn → List Nat
   | .update _ removed patches _ _ _ _ => removed ++ patches.map (·.1)
   | _ => []
 
+/-- fragments an Update / Delete modifies in any way (its own `modified_fragment_ids`) -/
+def Txn.udModified : Txn → List Nat
+  | .delete aff removed => aff.map (·.1) ++ removed
+  | .update aff removed patches _ _ _ _ => aff.map (·.1) ++ removed ++ patches.map (·.1)
+  | _ => []
+
 /-- TransactionRebase::check_txn: does `mine` (being committed) conflict with `other` (committed since `mine` was built)?
     Every conflict between the operations of this model is a retryable one. -/
 def conflicts (mine other : Txn) : Bool :=
@@ -217,7 +227,11 @@ def conflicts (mine other : Txn) : Bool :=
   | .delete aff removed, .dataRepl f _ => (Txn.delete aff removed).modified.contains f
   | .update aff removed ps nw fm ht cm, .dataRepl f _ => (Txn.update aff removed ps nw fm ht cm).modified.contains f
   | .delete aff removed, o => inter (Txn.delete aff removed).modified o.filesChanged
-  | .update aff removed ps nw fm ht cm, o => inter (Txn.update aff removed ps nw fm ht cm).modified o.filesChanged
+  -- a RewriteColumns update is committed without `affected_rows` ("we have rewritten the fragments, not just the
+  -- deletion files"): any Update / Delete of one of its fragments is a conflict; with affected rows only a change of
+  -- the fragment's files or its removal is (deletion vectors are merged row by row, `rowConflict`)
+  | .update aff removed ps nw fm ht cm, o =>
+    inter (Txn.update aff removed ps nw fm ht cm).modified (if cm then o.udModified else o.filesChanged)
   -- check_data_replacement_txn
   | .dataRepl _ p, .createIndex new _ => inter (new.flatMap (·.fields)) (patchFields p)
   | .dataRepl f p, .dataRepl f' p' => f == f' && inter (patchFields p) (patchFields p')
@@ -318,7 +332,7 @@ def mixPatches (m : Manifest) (src : List Row) : List (Nat × Patch) :=
     with a matched live row; fields_modified = the fields of the data files it adds = {c0, c1} (nothing when no row
     matches: the transaction is committed all the same) -/
 def bMix (m : Manifest) (src : List Row) : Txn :=
-  .update [] [] (mixPatches m src) [] (if (mixPatches m src).isEmpty then [] else [0, 1]) (affOf m (srcKeys src)) true
+  .update [] [] (mixPatches m src) [] (if (mixPatches m src).isEmpty then [] else [0, 1]) [] true
 
 /-- the entries a training scan of fragment `f` produces -/
 def fragEnts (m : Manifest) (F : List Nat) (f : Nat) : List Ent :=
